@@ -74,6 +74,11 @@ def instances(tier, seed):
                     h = H[2]
                 add(kind='nlp', spec=fam.with_horizon(dyn_spec(), h), cfg=Cfg(method, N=N, M=M, intg=intg or 'rk', grid=g, degree=2, scheme='radau'))
                 n += 1
+        g0 = grid_list(3)[gi]
+        if ('min' in g0[1] or 'max' in g0[1]) and g0[0] != 'free':
+            # interval bounds are only decidable by the NLP when the horizon is a decision: always include a free-T instance
+            for N in ((3,) if tier == 'quick' else (2, 3, 5)):
+                add(kind='nlp', spec=fam.with_horizon(dyn_spec(), H[2]), cfg=Cfg(methods[gi % 3][0], N=N, M=1, intg=methods[gi % 3][1] or 'rk', grid=grid_list(N)[gi], degree=2, scheme='radau'))
     return items
 
 
